@@ -69,6 +69,7 @@ func c06Truth() []c06truth {
 		{"decimal 0", decimal.Zero, false}, {"decimal -1", decimal.NewFromInt(-1), false}, {"decimal -0.5", decimal.NewFromFloat(-0.5), false}, {"decimal 2.5", decimal.NewFromFloat(2.5), true}, {"decimal 1e-9", decimal.New(1, -9), true},
 		{"string 0", "0", true}, {"string blank", " ", true}, {"string false", "false", true}, {"string NUL", "\x00", true},
 		{"Stringer s", gen.ValStringer{S: "s"}, true}, {"Stringer empty", gen.ValStringer{S: ""}, false}, {"Number 2", gen.ValNumber{N: 2}, true}, {"Number -2", gen.ValNumber{N: -2}, false}, {"Number 0", gen.ValNumber{N: 0}, false},
+		{"Stringer 'settled' + Number 0", gen.StrNum{S: "settled", N: 0}, true}, {"Stringer '' + Number 5", gen.StrNum{S: "", N: 5}, false}, {"Number 0 + Boolean true", gen.NumBool{N: 0, B: true}, true}, {"Number 3 + Boolean false", gen.NumBool{N: 3, B: false}, false},
 		{"Boolean true", gen.ValBoolean{B: true}, true}, {"Boolean false", gen.ValBoolean{B: false}, false},
 		{"defined bool", gen.NamedBool(true), true}, {"defined int 0", gen.KeyInt(0), false}, {"defined int -3", gen.KeyInt(-3), false}, {"defined string", gen.KeyStr("x"), true}, {"defined empty string", gen.KeyStr(""), false}, {"defined float", gen.NamedF64(0.25), true},
 		{"safe true", stick.NewSafeValue(true, "html"), true}, {"safe empty", stick.NewSafeValue("", "html"), false}, {"safe -1", stick.NewSafeValue(-1, "js"), false}, {"safe decimal -1", stick.NewSafeValue(decimal.NewFromInt(-1), "html"), false},
@@ -210,6 +211,15 @@ func (p *c06) Init(tier string, seed int64) {
 				tf(&gen.EBin{Op: "and", L: c, R: &gen.EBool{V: true}}), tx("|"), tf(&gen.EBin{Op: "or", L: &gen.EBool{V: false}, R: c})}
 			return mkProg(map[string]interface{}{"c": tc.v, "f": false}, body...), fmt.Sprintf("if/truth-carrier/%d/%s", ci, tc.label)
 		})
+	}
+	// maps and hash literals with several entries: the order of the entries is Go's, the loop fields are not
+	for n := 2; n <= 5; n++ {
+		for kind := 0; kind < 3; kind++ {
+			n, kind := n, kind
+			p.enum = append(p.enum, func() (*Program, string) {
+				return nil, fmt.Sprintf("for/multi-entry/%d/%d", kind, n)
+			})
+		}
 	}
 	// --- loops: sequence kind x length x form ---
 	for _, sk := range c06SeqKinds() {
@@ -511,12 +521,21 @@ func (p *c06) build(i, attempt int) (*Program, string) {
 
 func (p *c06) Describe(i int) interface{} {
 	prog, sig := p.build(i, 0)
+	if prog == nil {
+		return map[string]interface{}{"shape": sig}
+	}
 	d := prog.describe()
 	d["shape"] = sig
 	return d
 }
 
 func (p *c06) Run(i int) (res fw.Result) {
+	if i < len(p.enum) {
+		if _, sig := p.enum[i](); strings.HasPrefix(sig, "for/multi-entry/") {
+			p.runMultiEntry(&res, sig)
+			return
+		}
+	}
 	if i < len(p.enum) {
 		if prog, sig := p.enum[i](); strings.HasPrefix(sig, "if/truth-carrier/") {
 			var ci int
@@ -560,12 +579,91 @@ func (p *c06) Run(i int) (res fw.Result) {
 	return
 }
 
+// runMultiEntry: a loop over a Go map / a hash literal with n entries. Which entry comes when is not defined; the
+// loop fields of the k-th iteration are, every key comes exactly once with its own value, and the else branch stays
+// out.
+func (p *c06) runMultiEntry(res *fw.Result, sig string) {
+	var kind, n int
+	fmt.Sscanf(strings.TrimPrefix(sig, "for/multi-entry/"), "%d/%d", &kind, &n)
+	keys := []string{"ka", "kb", "kc", "kd", "ke"}[:n]
+	ctx := map[string]interface{}{}
+	var seq gen.Expr = nm("m")
+	switch kind {
+	case 0:
+		m := map[string]interface{}{}
+		for i, k := range keys {
+			m[k] = 10 + i
+		}
+		ctx["m"] = m
+	case 1:
+		m := map[string]int{}
+		for i, k := range keys {
+			m[k] = 10 + i
+		}
+		ctx["m"] = &m
+	default:
+		h := &gen.EHash{}
+		for i, k := range keys {
+			h.Keys = append(h.Keys, str(k))
+			h.Vals = append(h.Vals, num(10+i))
+		}
+		seq = h
+	}
+	body := []gen.Node{pr(nm("k")), tx("="), pr(nm("v")), tx(";")}
+	for _, f := range loopMeta {
+		body = append(body, pr(attr(nm("loop"), f)), tx(","))
+	}
+	body = append(body, tx("|"))
+	prog := mkProg(ctx, &gen.NFor{Key: "k", Val: "v", Seq: seq, Body: body, HasElse: true, Else: []gen.Node{tx("EMPTY")}})
+	pol, _ := layoutFor(sig)
+	lib := runLib(prog, pol, false)
+	res.UniqueNT = 1
+	res.AddObs("exec_steps", lib.exSteps)
+	res.AddClass("multi-entry-loop")
+	bad := ""
+	rows := strings.Split(strings.TrimSuffix(lib.out, "|"), "|")
+	switch {
+	case lib.pan != nil || lib.err != nil:
+		bad = fmt.Sprintf("error %v, panic %v", lib.err, lib.pan)
+	case len(rows) != n:
+		bad = fmt.Sprintf("%d iterations", len(rows))
+	default:
+		seen := map[string]bool{}
+		for i, row := range rows {
+			kv, meta, _ := strings.Cut(row, ";")
+			k, v, _ := strings.Cut(kv, "=")
+			idx := -1
+			for j, kk := range keys {
+				if kk == k {
+					idx = j
+				}
+			}
+			b := func(x bool) string {
+				if x {
+					return "1"
+				}
+				return ""
+			}
+			want := fmt.Sprintf("%d,%d,%d,%d,%s,%s,%d,", i+1, i, n-i, n-i-1, b(i == 0), b(i == n-1), n)
+			if idx < 0 || seen[k] || v != fmt.Sprint(10+idx) {
+				bad = fmt.Sprintf("iteration %d has key %q with value %q", i, k, v)
+			} else if meta != want {
+				bad = fmt.Sprintf("iteration %d has the loop fields %q, want %q", i, meta, want)
+			}
+			seen[k] = true
+		}
+	}
+	if bad != "" {
+		res.Fail("output", "c06:"+sig, fmt.Sprintf("loop over %d entries renders %q: %s", n, clip(lib.out, 300), bad), prog.describe())
+	}
+}
+
 func (p *c06) Rule() string {
-	return "enumerated (exhaustive within the bound): every if-chain shape with <=3 elseif x optional else x every truth assignment; truthiness of each scalar class, and of 48 carriers of a condition value (negative and tiny numbers of every kind, NaN and infinities, decimals, strings like '0' and ' ', Stringer / Number / Boolean implementers, defined types, safe wrappers, containers, pointers) against the documented rule written out by hand, in if / not / ?: / for-if / elseif / and / or; every sequence kind (array literal, range, []int, []string, []Value, *[]int, [3]int, single-entry map, hash literal, nil, null, empty map) x length 0..8 x {value only, key+value, with else, nested in an outer loop with loop.parent, the outer loop's key and value read inside the inner loop} printing key, value and all seven loop fields at every position, with context variables named like every loop variable; inline-if loops for every element mask of length 1..5 and comparison conditions; non-iterables (numbers, strings, bools, structs - also the empty string, 0 and false, which are empty but no sequences) must be an error. Random: nestings of if/elseif/else and for (depth<=4) with boolean conditions from the expression region and loop fields printed at every depth. Oracle: reference model output and error-or-not. Loop fields are not printed inside inline-if bodies and the else-branch of a fully filtered non-empty loop is not exercised (stick and Twig differ there; the statement only promises which elements are rendered). Non-trivial: enumerated cases are distinct by construction; random ones need a loop nested in or containing another construct."
+	return "enumerated (exhaustive within the bound): every if-chain shape with <=3 elseif x optional else x every truth assignment; truthiness of each scalar class, and of 52 carriers of a condition value (negative and tiny numbers of every kind, NaN and infinities, decimals, strings like '0' and ' ', Stringer / Number / Boolean implementers, defined types, safe wrappers, containers, pointers) against the documented rule written out by hand, in if / not / ?: / for-if / elseif / and / or; every sequence kind (array literal, range, []int, []string, []Value, *[]int, [3]int, single-entry map, hash literal, nil, null, empty map) x length 0..8 x {value only, key+value, with else, nested in an outer loop with loop.parent, the outer loop's key and value read inside the inner loop} printing key, value and all seven loop fields at every position, with context variables named like every loop variable; inline-if loops for every element mask of length 1..5 and comparison conditions; non-iterables (numbers, strings, bools, structs - also the empty string, 0 and false, which are empty but no sequences) must be an error. Random: nestings of if/elseif/else and for (depth<=4) with boolean conditions from the expression region and loop fields printed at every depth. Oracle: reference model output and error-or-not. Loop fields are not printed inside inline-if bodies and the else-branch of a fully filtered non-empty loop is not exercised (stick and Twig differ there; the statement only promises which elements are rendered). Non-trivial: enumerated cases are distinct by construction; random ones need a loop nested in or containing another construct."
 }
 
 func (p *c06) Assumptions() []string {
-	return []string{"loop.parent is the enclosing loop's loop record (the form the suite pins)", "multi-entry hashes are not iterated (Go map order)"}
+	return []string{"loop.parent is the enclosing loop's loop record (the form the suite pins)", "for maps and hashes with several entries only what does not depend on Go's map order is checked (loop fields per iteration, every entry exactly once)"}
 }
 
 func (p *c06) Floors(tier string) map[string]int64 {
